@@ -307,6 +307,10 @@ func genReq(rg *rand.Rand, f *wh.Funded) req {
 		}
 	}
 	q.minconf = int32(rg.Intn(4))
+	if rg.Intn(4) == 0 {
+		// above the coinbase maturity: a mature coinbase may still be too shallow
+		q.minconf = f.Maturity + int32(rg.Intn(5))
+	}
 	q.rate = btcutil.Amount([]int{1000, 2000, 5000}[rg.Intn(3)])
 	q.strategy, q.sname = wallet.CoinSelectionLargest, "largest"
 	if rg.Intn(2) == 0 {
@@ -383,7 +387,7 @@ func min(a, b int) int {
 
 func main() {
 	r := evid.New(P, "exploration")
-	r.Rule("complete wallets funded over the fake backend on all four address types and two accounts via confirmed, unconfirmed, coinbase (immature by 0..many blocks) and reorged-out receipts, with random LockOutpoint / LeaseOutput; then 30..120 requests per wallet mixing CreateSimpleTx (dry run and real), SendOutputs, SendOutputsWithInput with eligible picks and with a deliberately INELIGIBLE pick of each kind (wrong account, wrong scope, already spent, locked, leased, too few confirmations, immature coinbase), FundPsbt without inputs, both strategies, minconf 0..3, three fee rates, amounts random or placed so that the k largest eligible coins cover amount + first fee guess but not the real fee (forces re-selection), interleaved with mining of the published transactions and with rebroadcast passes of the still-unconfirmed ones (backend answers 'already in mempool'). Oracle = harness ledger of everything it delivered and everything the wallet published: every input must be eligible for that request at that moment, no input twice, requested output present, explicit selections respected / ineligible ones refused, dry runs leave the money state unchanged, every input of a signed result executes in a fresh txscript engine with StandardVerifyFlags against prevouts from the ledger. Final concurrent phase: 8 goroutines x 3 sends; the published transactions must not share an input. Non-trivial = wallet that produced at least one transaction; distinct = distinct wallets.")
+	r.Rule("complete wallets funded over the fake backend on all four address types and two accounts via confirmed, unconfirmed, coinbase (immature by 0..many blocks) and reorged-out receipts, with random LockOutpoint / LeaseOutput; then 30..120 requests per wallet mixing CreateSimpleTx (dry run and real), SendOutputs, SendOutputsWithInput with eligible picks and with a deliberately INELIGIBLE pick of each kind (wrong account, wrong scope, already spent, locked, leased, too few confirmations, immature coinbase), FundPsbt without inputs, both strategies, minconf 0..3 and (1 in 4) coinbase maturity + 0..4, three fee rates, amounts random or placed so that the k largest eligible coins cover amount + first fee guess but not the real fee (forces re-selection), interleaved with mining of the published transactions and with rebroadcast passes of the still-unconfirmed ones (backend answers 'already in mempool'). Oracle = harness ledger of everything it delivered and everything the wallet published: every input must be eligible for that request at that moment, no input twice, requested output present, explicit selections respected / ineligible ones refused, dry runs leave the money state unchanged, every input of a signed result executes in a fresh txscript engine with StandardVerifyFlags against prevouts from the ledger. Final concurrent phase: 8 goroutines x 3 sends; the published transactions must not share an input. Non-trivial = wallet that produced at least one transaction; distinct = distinct wallets.")
 	r.Trusted("txscript.Engine (StandardVerifyFlags)", "waddrmgr.AddrAccount to classify change outputs", "internal/fakechain")
 	r.Assume("FundPsbt with caller-supplied inputs is the documented external-coin-selection path and is not asserted here", "coin eligibility uses the backend tip as the current height, as the wallet does")
 	dir, _ := os.MkdirTemp("", "c06")
